@@ -42,8 +42,8 @@ class Unit:
     def block(self, file, header, fns, spec_items="", emit_header=None, drop_rest=True, only_free_fn=False):
         """trait / impl block: fns = {name: Fn}.  Methods not named are dropped (logged)."""
         self.parts.append(("block", file, header, fns, spec_items, emit_header, drop_rest))
-    def free_fn(self, file, header, fn):
-        self.parts.append(("free_fn", file, header, fn))
+    def free_fn(self, file, header, fn, wrap_mod=None):
+        self.parts.append(("free_fn", file, header, fn, wrap_mod))
     def macro_block(self, file, macro_name, emit_header, fns, spec_items=""):
         """instantiate a no-argument macro whose body is a list of fns (deref_forward_buf!)"""
         self.parts.append(("macro_block", file, macro_name, emit_header, fns, spec_items))
@@ -358,12 +358,17 @@ def build_unit(unit, outdir):
             em.drops.append({"item": header, "file": file, "drops": log})
             em.add((attrs + "\n" if attrs else "") + body + "\n")
         elif part[0] == "free_fn":
-            _, file, header, fn = part
+            _, file, header, fn, wrap_mod = part
             sf = source(file)
             hits = [it for it in sf.top_items() if it.kind == "fn" and fn_name(it) == header]
             if len(hits) != 1:
                 raise InfraError("lost anchor: fn %s in %s (%d hits)" % (header, file, len(hits)))
-            _emit_one(em, unit, file, "", hits[0], fn, indent="")
+            if wrap_mod:
+                em.add("pub mod %s {\n    use super::*;\n" % wrap_mod)
+                em.drops.append({"item": "fn " + header, "file": file, "drops": ["emitted inside `mod %s` (its module in the crate)" % wrap_mod]})
+            _emit_one(em, unit, file, "", hits[0], fn, indent="    " if wrap_mod else "")
+            if wrap_mod:
+                em.add("}\n\n")
         elif part[0] == "block":
             _, file, header, fns, spec_items, emit_header, drop_rest = part
             sf = source(file)
@@ -376,9 +381,6 @@ def build_unit(unit, outdir):
             if emit_header:
                 log.append("block header emitted as `%s` (source: `%s`)" % (emit_header, " ".join(it.header_text.split())))
             _filter_attrs(it, log)
-            hdr = re.sub(r"^unsafe\s+impl", "impl", hdr)
-            if hdr != (emit_header or it.header_text):
-                log.append("qualifier dropped: unsafe (impl)")
             em.add(hdr + " {\n")
             if spec_items.strip():
                 em.add(_indent(spec_items.strip(), "    ") + "\n\n")
@@ -479,6 +481,8 @@ def run_verus(path, rlimit=None, timeout=900):
     except subprocess.TimeoutExpired:
         raise InfraError("verus timeout on " + path)
     wall = time.time() - t0
+    if "panicked at" in pr.stderr and "rustc" in pr.stderr:
+        raise InfraError("verus crashed (internal error) on %s: %s" % (path, pr.stderr[:1500]))
     try:
         js = json.loads(pr.stdout[pr.stdout.index("{"):])
     except Exception:
